@@ -555,7 +555,7 @@ func mergesim(args []string) error {
 	et := fs.String("eng", "pebble", "")
 	noCountRev := fs.Bool("nocount-rev", true, "include reverse merged scans without COUNT")
 	full := fs.Bool("fullscan", true, "include FULLSCAN iterations")
-	fullMatchCount := fs.Bool("fullmatch-count", false, "FULLSCAN with MATCH also with COUNT >= partitions (open finding)")
+	fullMatchCount := fs.Bool("fullmatch-count", false, "FULLSCAN with MATCH also with COUNT >= partitions")
 	fs.Parse(args)
 
 	dir, err := ioutil.TempDir(os.Getenv("ZR_SCRATCH"), "zrmrg")
@@ -695,8 +695,8 @@ func mergesim(args []string) error {
 				pl := base
 				pl.ty, pl.full, pl.count, pl.pat, pl.patKeys = ty, true, 0, pt.p, pt.keys
 				if *fullMatchCount {
-					// open finding C13-fullscan-match-ends-early: MATCH together with a COUNT that
-					// makes the per-partition page smaller than the data
+					// MATCH together with a COUNT that makes the per-partition page smaller than
+					// the data (fixed finding C13-fullscan-match-ends-early)
 					pl.count = []int{*P, 2**P + 1}[rng.Intn(2)]
 				}
 				d.iterate(pl)
